@@ -227,17 +227,20 @@ func (w *World) LoadL1(ctx context.Context, s *Stores, dense bool) error {
 	return nil
 }
 
-// LoadL2Block feeds one closed L2 block to the L2-side stores.
+// LoadL2Block feeds one closed L2 block to the L2 bridge store.
 func (w *World) LoadL2Block(ctx context.Context, s *Stores, b *Block) error {
 	if s.L2Bridge != nil {
 		if err := s.L2Bridge.VerifStore().ProcessBlock(ctx, w.L2BridgeBlock(b)); err != nil {
 			return fmt.Errorf("L2 bridge store, block %d: %w", b.Num, err)
 		}
 	}
-	if s.LastGER != nil {
-		if err := s.LastGER.VerifStore().ProcessBlock(ctx, w.LastGERBlock(b)); err != nil {
-			return fmt.Errorf("injected GER store, block %d: %w", b.Num, err)
-		}
+	return nil
+}
+
+// LoadLastGERBlock feeds one closed L2 block to the injected-GER store.
+func (w *World) LoadLastGERBlock(ctx context.Context, s *Stores, b *Block) error {
+	if err := s.LastGER.VerifStore().ProcessBlock(ctx, w.LastGERBlock(b)); err != nil {
+		return fmt.Errorf("injected GER store, block %d: %w", b.Num, err)
 	}
 	return nil
 }
